@@ -114,6 +114,16 @@ class ResetSeq(ResetMixin, SeqSystem):
         return self.cmp(exp, when)
 
 
+def make_system(kind, d, prog, flat, flavour, on_reset):
+    """inputs (incl. an inactive reset) are driven from time 0: an undefined reset input at power-up is not part of the property"""
+    rst_off = 1 if flavour["active_low"] else 0
+    if kind == "coro":
+        sim = d.sim(init=dict(clk=0, rst=rst_off, i0=0, i1=0))
+        return ResetCoro(sim, coro.RefMachine(flat, c04=True, on_reset=on_reset), flavour)
+    sim = d.sim(init=dict(clk=0, rst=rst_off, a=0, b=0, c=0))
+    return ResetSeq(sim, seqbody.Ref(prog, c04=True, on_reset=on_reset), flavour)
+
+
 def check(kind, prog, flavour, on_reset, max_states=300000):
     if kind == "coro":
         src, flat = coro.render(prog, flavour, c04=True, on_reset=on_reset)
@@ -127,10 +137,7 @@ def check(kind, prog, flavour, on_reset, max_states=300000):
     except VhdlSyntaxError as e:
         return {"status": "violation", "what": f"emitted VHDL does not parse: {e}", "trace": None, "src": src}
     try:
-        if kind == "coro":
-            system = ResetCoro(d.sim(), coro.RefMachine(flat, c04=True, on_reset=on_reset), flavour)
-        else:
-            system = ResetSeq(d.sim(), seqbody.Ref(prog, c04=True, on_reset=on_reset), flavour)
+        system = make_system(kind, d, prog, flat if kind == "coro" else None, flavour, on_reset)
         r = bfs(system, max_states=max_states)
     except coro.ZeroTimeLoop:
         return {"status": "zero_time"}
@@ -151,10 +158,7 @@ def replay_one(kind, prog, flavour, on_reset, trace):
     if not res.ok:
         return None
     d = compile_design(res.vhdl, poison=True, poison_exclude=("v",))
-    if kind == "coro":
-        system = ResetCoro(d.sim(), coro.RefMachine(flat, c04=True, on_reset=on_reset), flavour)
-    else:
-        system = ResetSeq(d.sim(), seqbody.Ref(prog, c04=True, on_reset=on_reset), flavour)
+    system = make_system(kind, d, prog, flat if kind == "coro" else None, flavour, on_reset)
     for ev in trace:
         msg = system.apply(totuple(ev))
         if msg is not None:
